@@ -114,11 +114,11 @@ type PipeSpec struct {
 	Abandoned []Bin `json:"abandoned,omitempty"`
 
 	// cluster-side redirection state (C13): the proxy's view is the fixture topology, the truth is this
-	Moved     []SlotNode `json:"moved,omitempty"`     // slot really owned by Node: everybody else answers -MOVED
-	Migrating []Mig      `json:"migrating,omitempty"` // slot being migrated from Src (the owner) to Dst
-	Present   []Bin      `json:"present,omitempty"`   // keys of migrating slots that are still at the source
-	RedirDelayMs int     `json:"redirect_delay_ms,omitempty"` // redirection replies are sent this late (they can arrive after the request was completed otherwise)
-	DeadAddr  string     `json:"-"`
+	Moved        []SlotNode `json:"moved,omitempty"`             // slot really owned by Node: everybody else answers -MOVED
+	Migrating    []Mig      `json:"migrating,omitempty"`         // slot being migrated from Src (the owner) to Dst
+	Present      []Bin      `json:"present,omitempty"`           // keys of migrating slots that are still at the source
+	RedirDelayMs int        `json:"redirect_delay_ms,omitempty"` // redirection replies are sent this late (they can arrive after the request was completed otherwise)
+	DeadAddr     string     `json:"-"`
 }
 
 // SlotNode says which node really owns a slot.
